@@ -44,6 +44,14 @@ func init() {
 		Bounded: []string{"arbitrary well-formed programs: only the fixed grammar corpus in govc/c07.go is evaluated (bounded stand-in, not a proof of the general clause)"},
 	})
 	reg(&PropDef{
+		ID:     "C14",
+		Level:  "proof",
+		Custom: []func(*PropRun){c14Database},
+		Trusted: []string{"terminfo(5) grammar as transcribed in wellFormedProgram; table of parameters the library supplies per capability (paramArity)",
+			"standard 256-colour and ISO 8613-6 direct-colour strings as constants in govc/c14.go"},
+		Assume: []string{"the dynamic (infocmp) loader behind tcell.LookupTerminfo is outside the verifier's reach (external process)"},
+	})
+	reg(&PropDef{
 		ID:     "C15",
 		Level:  "proof",
 		Custom: []func(*PropRun){c15Tables},
